@@ -13,7 +13,7 @@ from vlib import hx
 V = Union[None, bool, int, str]
 
 ATOMS = ['a="x"', 'b=1', 'c=true', 'a!=null', 'b!=2', 'c!=false', 'a=null', 'b=-3', 'c=null', 'a!="y z"',
-         'b=1.5', 'a=""']
+         'b=1.5', 'a=""', 'b=9007199254740993', 'b!=1e2']
 SKELETONS_Q = ['{0}', '{0} and {1}', '{0} or {1}', '{0} and {1} or {2}', '{0} or {1} and {2}',
                '({0} or {1}) and {2}', '{0} and ({1} or {2})', '({0})', '(({0} and {1}))',
                '{0} or {1} or {2}', '{0} and {1} and {2}']
@@ -39,7 +39,7 @@ def expressions():
 
 
 # ---- independent reference: tokenizer + precedence climbing ------------------------------------------
-_TOK = re.compile(r'\s*(?:(\()|(\))|(!=|=)|("(?:[^"\\]|\\.)*")|(-?\d+\.\d*)|(-?\d+)|([A-Za-z_][A-Za-z0-9_-]*))')
+_TOK = re.compile(r'\s*(?:(\()|(\))|(!=|=)|("(?:[^"\\]|\\.)*")|(-?\d+(?:\.\d*(?:e-?\d+)?|e-?\d+))|(-?\d+)|([A-Za-z_][A-Za-z0-9_-]*))')
 
 
 def _tokens(text):
@@ -176,3 +176,86 @@ def filter_eval(i: I3, s: S3, b: B12) -> bool:
     route = types.SimpleNamespace(attrs=attrs)
     got = flt.eval(route)
     return hx.ok(bool(got) == want)
+
+
+
+# ---------------------------------------------------------------- malformed expressions (token-level edits)
+def _token_texts(text):
+    pos, out = 0, []
+    while pos < len(text):
+        m = _TOK.match(text, pos)
+        out.append(m.group(0).strip())
+        pos = m.end()
+    return out
+
+
+def _well_formed(text):
+    try:
+        _parse(_tokens(text))
+    except (ValueError, AssertionError, IndexError):
+        return False
+    return True
+
+
+ILLEGAL = ['#', '@', '$', '&', ';', '!', '"', '\\', '%', '|']
+EDITS = ['delete', 'duplicate', 'swap', 'illegal-before', 'illegal-glued', 'to-and', 'to-eq', 'to-lit', 'to-par']
+MAXTOK = 19
+
+
+def _edit(tokens, kind, pos, c):
+    t = list(tokens)
+    if kind == 'delete':
+        del t[pos]
+    elif kind == 'duplicate':
+        t.insert(pos, t[pos])
+    elif kind == 'swap':
+        if pos + 1 >= len(t):
+            return None
+        t[pos], t[pos + 1] = t[pos + 1], t[pos]
+    elif kind == 'illegal-before':
+        t.insert(pos, ILLEGAL[c])
+    elif kind == 'illegal-glued':
+        t[pos] = t[pos] + ILLEGAL[c]
+    elif kind == 'to-and':
+        t[pos] = 'and'
+    elif kind == 'to-eq':
+        t[pos] = '='
+    elif kind == 'to-lit':
+        t[pos] = 'null'
+    elif kind == 'to-par':
+        t[pos] = '(' if c % 2 else ')'
+    return ' '.join(t)
+
+
+@hx.harness(props=['C19'], targets=['stone.cli_helpers:FilterExprParser.parse'], items=expressions,
+            bound='every single token-level edit of each listed expression: delete / duplicate a token, swap two neighbours, '
+                  'insert one of %s before or glued to a token, replace a token by and / = / null / a parenthesis '
+                  '(finite domain, enumerated by the solver; the real ply parser runs on the concrete text): errors are '
+                  'reported exactly when the independent parser rejects the text' % ILLEGAL,
+            outside=['edits of more than one token', 'the wording of the error'], budget=(90, 200))
+def malformed(kind: int, pos: int, c: int) -> bool:
+    """
+    pre: 0 <= kind < len(EDITS) and 0 <= pos < MAXTOK and 0 <= c < len(ILLEGAL)
+    post: _
+    """
+    kind, pos, c = int(kind), int(pos), int(c)
+    toks = _token_texts(hx.ITEM)
+    if pos >= len(toks):
+        return True
+    if EDITS[kind] not in ('illegal-before', 'illegal-glued', 'to-par') and c:
+        return True
+    if EDITS[kind] == 'to-par' and c > 1:
+        return True
+    text = _edit(toks, EDITS[kind], pos, c)
+    if text is None:
+        return True
+    from harness.fe_common import no_tracing
+    with no_tracing():                  # the edited text is concrete on every path: run the real parser at full speed
+        try:
+            ok = _well_formed(text)
+        except Exception:
+            ok = False
+        flt, errs = parse_route_attr_filter(text)
+    if ok:
+        return hx.ok(not errs and flt is not None)
+    return hx.ok(bool(errs))
